@@ -10,7 +10,7 @@ mir, srcp, h = run.prepare_mir()
 mod = importlib.import_module(pid.lower())
 spec = [s for s in mod.specs(tier) if s.name == name][0]
 cfg = dict(noops=[r"metrics", r"tracing", r"ExecuteMetricsCollector", r"Histogram"], cap=3); cfg.update(spec.cfg)
-tr = translate.Translator(mir, srcdefs.Sources(srcp), cfg)
+tr = translate.Translator(mir, srcdefs.Sources(srcp, extra_roots=spec.cfg.get("extra_src", [])), cfg)
 H = spec.build(tr)
 out = f"/tmp/gen_{pid}_{name}.c"
 open(out, "w").write(H.render())
